@@ -301,6 +301,8 @@ def _can_reach(fn, target):
 def run(prog, rep):
     rule_cut(prog, rep)
     rule_progress(prog, rep)
+    from . import parser_kinds
+    parser_kinds.run(prog, rep)
     rule_root(prog, rep)
     rule_pop(prog, rep)
     if rep.tier == "thorough":
